@@ -30,7 +30,8 @@ CHECK_DEADLOCK FALSE
 TRACE_CFG = "SPECIFICATION TraceSpec\nCONSTANTS\n  Files = {}\n  SkipClauses = %s\nINVARIANT Accepted\nCHECK_DEADLOCK FALSE\n"
 C15_CLAUSES = {'connectivity_test_answers', 'molecule_name', 'atoms_in_file_order', 'bond_graph', 'bonds_symmetric', 'atom_count',
                'connected_iff_one_component', 'copy_equal', 'copy_independent'}
-C16_CLAUSES = {'header_lines', 'section_lines', 'section_names_in_order_of_first_appearance'}
+C16_CLAUSES = {'header_lines', 'section_lines', 'section_names_in_order_of_first_appearance', 'rewritten_molecule_name',
+               'rewritten_atoms_in_file_order', 'rewritten_bond_graph', 'rewritten_bonds_symmetric'}
 
 
 # ---------------------------------------------------------------------------- rendering
@@ -127,7 +128,7 @@ def file_events(path, workdir, with_topo):
     if with_topo:
         ev += topo_events(path, 'file')
         # the topology read from the rewritten file must be the same: validated as a second topo event
-        ev += [e for e in topo_events(p3, 'file') if e['op'] == 'topo']
+        ev += [dict(e, op='topo2') for e in topo_events(p3, 'file') if e['op'] == 'topo']
     return ev
 
 
@@ -180,6 +181,9 @@ def topo_events(path, kind):
         ev.append({'op': 'conn', 'value': val, 'exc': '', 'label': label, 'parent': par, 'depth': depth})
     except RecursionError:
         ev.append({'op': 'conn', 'value': False, 'exc': 'RecursionError', 'label': label, 'parent': par, 'depth': depth})
+    # the certificate is computed from the bonds the implementation returned: it certifies only if those are the file's
+    ev[-1]['bonds'] = [list(map(int, b)) for b in bonds]
+    ev[-1]['natoms'] = n
     cp = mt.copy()
     equal = bool(cp == mt and cp is not mt and all(x is not y for x, y in zip(cp.atoms, mt.atoms)))
     before = [sorted(a.bonds) for a in mt.atoms]
